@@ -418,6 +418,40 @@ pub fn oracle(ctx: &Ctx, rng: &mut Rng, o: &mut Out) {
       }
     }
     o.oracle("spelling-entry-points", true, json!({"lang": l.to_string(), "cases": entry_cases}));
+    // a plain string as REPLACER (`impl Replacer for str`: `replace_by`, `Node::replace`,
+    // `AstGrep::replace` of the library): `$A` / `$$A` in it stand for the capture, other `$` text and
+    // the language's internal sigil stay literal
+    {
+      use ast_grep_core::matcher::MatcherExt;
+      let g = l.ast_grep("a");
+      let mut ok_cases = 0usize;
+      if let Ok(p) = Pattern::try_new("$A", *l) {
+        if let Some(nm) = p.find_node(g.root()) {
+          let bound = nm.get_env().get_match("A").map(|n| n.text().to_string());
+          if let Some(t) = bound {
+            for (tmpl, want) in [
+              ("<$A>", format!("<{t}>")),
+              ("[$$A|$A]", format!("[{t}|{t}]")),
+              ("x$A$A", format!("x{t}{t}")),
+              ("'$a' $1 $ $A", format!("'$a' $1 $ {t}")),
+              ("plain", "plain".to_string()),
+            ] {
+              // the language's own sigil inside a template is outside the `$` alphabet of the property
+              if tmpl.contains(e) && e != '$' {
+                continue;
+              }
+              ok_cases += 1;
+              let edit = nm.replace_by(tmpl);
+              let got = String::from_utf8_lossy(&edit.inserted_text).to_string();
+              if got != want {
+                o.oracle("spelling", false, json!({"fp": format!("string replacer: template variables are read differently, expando={e}"), "lang": l.to_string(), "template": tmpl, "expected": want, "actual": got}));
+              }
+            }
+          }
+        }
+      }
+      o.oracle("str-replacer", true, json!({"lang": l.to_string(), "cases": ok_cases}));
+    }
   }
   // An+B: i selected iff exists n >= 0 with i+1 = a*n+b (brute force over n)
   let alphabet = ['n', 'N', '+', '-', '0', '1', '2', '9', ' '];
